@@ -156,7 +156,7 @@ def run(model: Model, rep: Report, tier: str) -> None:
         "predecessors/successors, topological_sort, set-like equality of NodeView/EdgeView",
         "Python set/frozenset/list semantics",
     ]
-    rep.floors = {"R14.0": 4, "R14.1": 12, "R14.2": 10, "R14.3": 15, "R14.4": 1}
+    rep.floors = {"R14.0": 4, "R14.1": 12, "R14.2": 10, "R14.3": 15, "R14.4": 1, "R14.5": 6}
     ev, sa = mk(model)
     cls = model.cls(NXMG)
     G = graph_var(ev)
@@ -562,6 +562,31 @@ def run(model: Model, rep: Report, tier: str) -> None:
         run_table(model, rep, present, "yvref.c14", _mk14, SetAlg(), construct=construct, loc=loc)
     else:
         rep.unknown("R14.2", "y0.graph:get_nodes_in_directed_paths#definition", "the two path routines are no longer separate functions; not compared", "src/y0/graph.py", required=False)
+
+    # ---------------------------------------------------------------- R14.5 one-shot iterables
+    from .. import linear
+    ops5 = ["subgraph", "remove_in_edges", "remove_out_edges", "remove_nodes_from", "intervene", "ancestors_inclusive", "descendants_inclusive",
+            "get_markov_pillow", "get_markov_blanket", "pre", "get_district", "get_intervened_ancestors", "get_no_effect_on_outcomes"]
+    for op in ops5:
+        if NXMG + "." + op not in model.functions:
+            continue
+        f5 = model.func(NXMG + "." + op)
+        if not linear.iterable_params(f5):
+            continue
+        bad5 = linear.check(f5)
+        if bad5:
+            prm, n_ = bad5[0]
+            rep.refuted("R14.5", construct(f5, "one-shot-iterable"), f"`{prm}` is declared Iterable but is walked {n_} times along one path: for an iterator / generator "
+                        "argument every walk after the first sees nothing (e.g. the right nodes but no edges)", loc(f5))
+        else:
+            rep.proven("R14.5", construct(f5, "one-shot-iterable"), loc=loc(f5))
+    for q5 in ("y0.graph.get_nodes_in_directed_paths", "y0.graph._ensure_set", "y0.graph._include_adjacent", "y0.graph._exclude_source", "y0.graph._exclude_target",
+               "y0.graph._exclude_adjacent"):
+        if model.has_func(q5) and linear.iterable_params(model.func(q5)):
+            f5 = model.func(q5)
+            bad5 = linear.check(f5)
+            (rep.refuted if bad5 else rep.proven)("R14.5", construct(f5, "one-shot-iterable"),
+                                                  f"`{bad5[0][0]}` is declared Iterable but is walked {bad5[0][1]} times along one path" if bad5 else "", loc(f5))
 
     # ---------------------------------------------------------------- R14.3 receiver untouched
     eff = Effects(model)
